@@ -6,7 +6,7 @@ THEOREMS_TIED = ["Rustic.Props.C02.used_key_attributed", "Rustic.Props.C02.decis
                  "Rustic.Props.C02.prune_failed_write_keeps_snapshots", "Rustic.Props.C02.prune_failed_repack_write_keeps_index"]
 
 TRUSTED = [
-    "hand-written model lean/Rustic/Model/{Prune,Repo}.lean of commands/prune.rs (PrunePlan::new, count_used_blobs, PackInfo::from_pack, "
+    "hand-written model lean/Rustic/Model/{Prune,Repo}.lean of commands/prune.rs (find_used_blobs over the output of the tree streamer — no driver channel: tied to the code by the hist oracles only —, PrunePlan::new, count_used_blobs, PackInfo::from_pack, "
     "decide_packs, decide_repack, check_existing_packs, filter_index_files, prune_repository) and blob/packer.rs PackSizer",
     "correspondence harness harness/src/c02.rs + c02_hist.rs (hooks verif::prune::{plan_from_parts,plan_at,pack_info,MIN_INDEX_LEN}, verif::packer::pack_sizer, "
     "verif::repository::save_file); the hook `finish_plan` repeats the call sequence of PrunePlan::from_prune_options with the plan time injected — "
@@ -42,7 +42,7 @@ RULE = ("ops from harness/src/c02.rs, one splitmix64 PRNG (VERIF_SEED): `hist` (
         "with wrong size, unreferenced packs, >255 duplicates, used ids absent from the index) x all option flags x limits (unlimited / sizes / 0..99 %) "
         "x pack sizers; `info` = PackInfo::from_pack on pack sequences. Non-trivial = plan with at least one decision / history with a prune; "
         "distinct by hash of (op, observation).")
-EXPLANATION = ("Theorems (lean/Rustic/Props/C02.lean, 23, none partial): from_pack accounting, stats_no_underflow, every used key attributed to a pack that is "
+EXPLANATION = ("Theorems (lean/Rustic/Props/C02.lean, 27, none partial): find_used_blobs puts the content of EVERY file node of every streamed tree among the used keys whatever size the node records (used_holds_all_file_content, used_ignores_recorded_size: stdin / command snapshots record size 0), roots and directory subtrees are used tree keys; from_pack accounting, stats_no_underflow, every used key attributed to a pack that is "
                "kept/repacked/recovered, decision table, no pack undecided, filter_index_files rebuilds the index file of every pack that changes "
                "(RepackRebuilt derived), execution covers every used key, removals only of Delete packs unless instant-delete, marked packs stay until "
                "keep-delete passed, recover brings back, a pack that some index file lists normally is planned as unmarked whatever marked entries exist for it (never Delete / KeepMarked, not removed by a non-instant prune: normal_index_entry_wins_over_mark), and prune_preserves_readable: after every prefix of the executed operation list of an accepted "
@@ -51,7 +51,7 @@ EXPLANATION = ("Theorems (lean/Rustic/Props/C02.lean, 23, none partial): from_pa
                "index write, removals) reports failure and leaves a consistent repository with every snapshot readable; "
                "prune_failed_repack_write_keeps_index: a failure in the writing phase stops the run before any index file or listed pack is removed. Correspondence: per-pack decision, all PruneStats counters, rebuilt index files, remaining used ids, and the "
                "executed storage operations (as sets per phase, phase order checked) of the real code equal the model's on every crafted case. Oracles on "
-               "real histories: check(read_data) clean and every snapshot reads back after every step; a non-instant prune removes only packs whose mark "
+               "real histories (4 of 6 file contents are backed up through nodes whose RECORDED size is not the content length: 0 = stdin style, half, larger): check(read_data) clean and every snapshot reads back after every step; a non-instant prune removes only packs whose mark "
                "time AS RECORDED BY THE HARNESS (time of the marking prune) is >= keep-delete old; hook plan == Repository::prune_plan; fault sweep: a prune "
                "with a failed storage operation returns Err, check(read_data) is clean and every snapshot reads back afterwards, a fault-free retry "
                "succeeds and is clean; an interrupted index clean-up is reported as Err.")
